@@ -147,6 +147,8 @@ enum Op {
   OP_Q120X2_1COL_REF, OP_Q120X2_1COL_AVX2, OP_Q120X2_2COLS_REF, OP_Q120X2_2COLS_AVX2,
   OP_Q120_B_FROM_ZNX64, OP_Q120_C_FROM_ZNX64, OP_Q120_C_FROM_B, OP_Q120_B_TO_ZNX128, OP_Q120_ADD_BBB, OP_Q120_ADD_CCC,
   OP_Q120X2_EXTRACT_B, OP_Q120X2_EXTRACT_C, OP_Q120X2_EXTRACT_CONTIG, OP_Q120X2_SAVE,
+  // exported coefficient kernels selected by symbol (ref / avx twins), p0 = nn, p1 = divisor (double bits)
+  OP_ZNX_ADD_REF, OP_ZNX_ADD_AVX, OP_ZNX_SUB_REF, OP_ZNX_SUB_AVX, OP_ZNX_NEG_REF, OP_ZNX_NEG_AVX, OP_RNX_DIV_REF, OP_RNX_DIV_AVX,
   // *_simple twins (hidden per-dimension caches)
   OP_REIM_FFT_SIMPLE, OP_REIM_IFFT_SIMPLE, OP_REIM_MUL_SIMPLE, OP_REIM_ADDMUL_SIMPLE, OP_REIM_FROM_ZNX64_SIMPLE,
   OP_REIM_TO_ZNX64_SIMPLE,
